@@ -56,11 +56,12 @@ type PaymentService struct {
 }
 
 func (p *PaymentService) verify(sig string, method string, wallet string, nonce int64, args ...interface{}) error {
-	if err := p.NonceStore.CheckAndSaveNonce(wallet, nonce); err != nil {
+	if err := request.Verify(sig, method, wallet, nonce, args...); err != nil {
 		return pool.VerifyFailedError{Cause: err, Method: method}
 	}
 
-	if err := request.Verify(sig, method, wallet, nonce, args...); err != nil {
+	// Only a verified request may use up the wallet's nonce.
+	if err := p.NonceStore.CheckAndSaveNonce(wallet, nonce); err != nil {
 		return pool.VerifyFailedError{Cause: err, Method: method}
 	}
 	return nil
